@@ -1,37 +1,216 @@
 import Cfg
+import Generated
+/-!
+Model side of the C19 correspondence profiles (harness/cmd/cfg/main.go, harness/inpkg/olareg/ratelimit_harness_test.go).
+One answer line per request line.
+
+* `D <18 tokens>`                         `Cfg.setDefaults`
+* `NEW RL <limit>` / `REQ a mode port t`  `Cfg.RL.step`   (mode and port are not part of a client address)
+* `NEW push=.. …` / `P <probe>` / `REOPEN r` / `DISK`   `Cfg.route` on the regenerated table + the effect of the handlers
+* `LC early|normal|load <limit>`          `Cfg.LC` (which endings are reachable)
+* `BIN <flags> [sig=µs]`                  the documented flag table, then as `P`
+-/
 open Cfg
 
 def ob (s : String) : Option Bool := if s = "t" then some true else if s = "f" then some false else none
 def fb (o : Option Bool) : String := match o with | some true => "t" | some false => "f" | none => "n"
 
-partial def loop (h : IO.FS.Stream) (out : IO.FS.Stream) : IO Unit := do
-  let line ← h.getLine
-  if line.isEmpty then return ()
-  match (line.trimAscii.toString.splitOn " ").filter (· ≠ "") with
+def defaultsLine (t : List String) : String :=
+  match t with
   | [t1, t2, t3, t4, ml, pe, pl, rl, ro, st, rd, gf, gg, um, gu, ge, gd, gw] =>
     let toI := fun (s : String) => s.toInt!
     let c0 : Config :=
-      { deleteEnabled := ob t1
-        pushEnabled := ob t2
-        blobDelete := ob t3
-        referrerEnabled := ob t4
-        manifestLimit := toI ml
-        pageCacheExpire := toI pe
-        pageCacheLimit := toI pl
-        referrerLimit := toI rl
-        readOnly := ob ro
-        storeType := st.toNat!
-        rootDir := (if rd = "-" then "" else rd)
-        gcFrequency := toI gf
-        gcGrace := toI gg
-        repoUploadMax := toI um
-        gcUntagged := ob gu
-        gcEmptyRepo := ob ge
-        gcDangling := ob gd
-        gcWithSubj := ob gw }
+      { deleteEnabled := ob t1, pushEnabled := ob t2, blobDelete := ob t3, referrerEnabled := ob t4
+        manifestLimit := toI ml, pageCacheExpire := toI pe, pageCacheLimit := toI pl, referrerLimit := toI rl
+        readOnly := ob ro, storeType := st.toNat!, rootDir := (if rd = "-" then "" else rd)
+        gcFrequency := toI gf, gcGrace := toI gg, repoUploadMax := toI um
+        gcUntagged := ob gu, gcEmptyRepo := ob ge, gcDangling := ob gd, gcWithSubj := ob gw }
     let r := setDefaults c0
-    out.putStrLn s!"{fb r.deleteEnabled} {fb r.pushEnabled} {fb r.blobDelete} {fb r.referrerEnabled} {r.manifestLimit} {r.pageCacheExpire} {r.pageCacheLimit} {r.referrerLimit} {fb r.readOnly} {r.storeType} {if r.rootDir = "" then "-" else r.rootDir} {r.gcFrequency} {r.gcGrace} {r.repoUploadMax} {fb r.gcUntagged} {fb r.gcEmptyRepo} {fb r.gcDangling} {fb r.gcWithSubj}"
-    loop h out
-  | _ => out.putStrLn "bad"; loop h out
+    s!"{fb r.deleteEnabled} {fb r.pushEnabled} {fb r.blobDelete} {fb r.referrerEnabled} {r.manifestLimit} {r.pageCacheExpire} {r.pageCacheLimit} {r.referrerLimit} {fb r.readOnly} {r.storeType} {if r.rootDir = "" then "-" else r.rootDir} {r.gcFrequency} {r.gcGrace} {r.repoUploadMax} {fb r.gcUntagged} {fb r.gcEmptyRepo} {fb r.gcDangling} {fb r.gcWithSubj}"
+  | _ => "bad"
 
-def main : IO Unit := do loop (← IO.getStdin) (← IO.getStdout)
+/-! ### switches: the registry as the probes see it -/
+
+structure Reg where
+  push : Bool := true
+  del : Bool := false
+  bdel : Bool := false
+  ref : Bool := true
+  ro : Bool := false
+  dirStore : Bool := true
+  nwarn : Nat := 0
+  tagT2 : Bool := false        -- tag t2 exists (pushed by probe mput)
+  b2 : Bool := true            -- the unreferenced blob exists in the store
+  b2Disk : Bool := true
+  t2Disk : Bool := false
+  converted : Bool := true     -- index.json on disk carries the referrers-converted annotation
+  stale : Bool := false        -- F24 (directory store): the next index load fails once
+  broken : Bool := false       -- F24 (memory store over a directory): the repository cannot be loaded at all
+  closed : Bool := false
+
+/-- settings come from the `serve` flags through the documented table, or directly as configuration fields; a value
+of `n` leaves the field unset, i.e. the documented default -/
+def parseReg (toks : List String) : Reg × Bool :=
+  let kv := toks.filterMap fun t => match t.splitOn "=" with | [k, v] => some (k, v) | _ => none
+  let get := fun (k : String) (d : String) => ((kv.find? (·.1 == k)).map (·.2)).getD d
+  let sw := fun (k : String) (d : Bool) => (ob (get k "n")).getD d
+  let c : Config := setDefaults {
+    pushEnabled := ob (get "push" "n"), deleteEnabled := ob (get "del" "n"), blobDelete := ob (get "bdel" "n"),
+    referrerEnabled := ob (get "ref" "n"), readOnly := ob (get "ro" "n") }
+  let seedref := sw "seedref" true
+  ({ push := c.pushEnabled.getD true, del := c.deleteEnabled.getD false, bdel := c.blobDelete.getD false,
+     ref := c.referrerEnabled.getD true, ro := c.readOnly.getD false, dirStore := get "store" "dir" != "mem",
+     nwarn := (get "warn" "0").toNat!, converted := seedref }, seedref)
+
+/-- opening a store on the directory: F24 — an index that was converted for the referrers API is refused when the
+API is off (the directory store fails the first index load, the memory store every load) -/
+def Reg.opened (r : Reg) : Reg :=
+  let bad := r.converted && !r.ref
+  { r with stale := bad && r.dirStore, broken := bad && !r.dirStore, closed := false }
+
+def probeReq (name : String) : Option (String × List String) :=
+  let r := ["v2", "proj", "app"]
+  match name with
+  | "ping" => some ("Get", ["v2"])
+  | "mget" => some ("Get", r ++ ["manifests", "t"])
+  | "mhead" => some ("Head", r ++ ["manifests", "sha256:m"])
+  | "bhead" => some ("Head", r ++ ["blobs", "sha256:cfg"])
+  | "tags" => some ("Get", r ++ ["tags", "list"])
+  | "ref" => some ("Get", r ++ ["referrers", "sha256:m"])
+  | "refput" => some ("Put", r ++ ["referrers", "sha256:m"])
+  | "mopt" => some ("Options", r ++ ["manifests", "t"])
+  | "mput" => some ("Put", r ++ ["manifests", "t2"])
+  | "bpost" => some ("Post", r ++ ["blobs", "uploads"])
+  | "upatch" => some ("Patch", r ++ ["blobs", "uploads", "nosuchsession"])
+  | "uget" => some ("Get", r ++ ["blobs", "uploads", "nosuchsession"])
+  | "uopt" => some ("Options", r ++ ["blobs", "uploads", "nosuchsession"])
+  | "mdel" => some ("Delete", r ++ ["manifests", "t2"])
+  | "bdel" => some ("Delete", r ++ ["blobs", "sha256:b2"])
+  | "b2head" => some ("Head", r ++ ["blobs", "sha256:b2"])
+  | "other" => some ("Get", r ++ ["nosuch", "x"])
+  | _ => none
+
+def probeNames : List String :=
+  ["ping", "mget", "mhead", "bhead", "tags", "ref", "refput", "mopt", "mput", "bpost", "upatch", "uget", "uopt", "mdel",
+   "bdel", "b2head", "other"]
+
+/-- what a handler answers for the probe content: (status, error code) and the new state.
+Read-only storage denies every mutating handler with 403 DENIED (documented: "read only disables all writes"). -/
+def handlerEffect (r : Reg) (name : String) (call : String) : Reg × Nat × String :=
+  let h := (call.splitOn "(").headD ""
+  if h = "v2Ping" then (r, 200, "-")
+  else if r.broken then (r, 500, "-")
+  else
+    let loadsIndex := h = "manifestGet" || h = "tagList" || h = "manifestDelete" || h = "referrerGet"
+    if r.stale && loadsIndex && !(h = "manifestDelete" && r.ro) then ({ r with stale := false }, 404, "NAME_UNKNOWN")
+    else
+      let conv := fun (r : Reg) => if r.dirStore && r.ref && !r.ro then { r with converted := true } else r
+      if h = "manifestGet" || h = "tagList" || h = "referrerGet" then (conv r, 200, "-")
+      else if h = "blobGet" then
+        (if name = "b2head" && !r.b2 then (r, 404, "-") else (r, 200, "-"))   -- HEAD: no body, no error code
+      else if h = "manifestPut" then
+        if r.ro then (r, 403, "DENIED")
+        else ({ conv r with tagT2 := true, t2Disk := r.dirStore, stale := false }, 201, "-")
+      else if h = "blobUploadPost" then (if r.ro then (r, 403, "DENIED") else (r, 202, "-"))
+      else if h = "blobUploadPatch" || h = "blobUploadPut" || h = "blobUploadGet" || h = "blobUploadDelete" then
+        (r, 400, "BLOB_UPLOAD_UNKNOWN")
+      else if h = "manifestDelete" then
+        if r.ro then (r, 403, "DENIED")
+        else if r.tagT2 then ({ conv r with tagT2 := false, t2Disk := false }, 202, "-")
+        else (conv r, 404, "MANIFEST_UNKNOWN")
+      else if h = "blobDelete" then
+        if r.ro then (r, 403, "DENIED")
+        else if r.b2 then ({ r with b2 := false, b2Disk := !r.dirStore }, 202, "-")
+        else (r, 404, "BLOB_UNKNOWN")
+      else (r, 0, "unknown-handler")
+
+def probe (r : Reg) (name : String) : Reg × String :=
+  match probeReq name with
+  | none => (r, "bad")
+  | some (m, p) =>
+    let sw : Switches := ⟨r.push, r.del, r.bdel, r.ref⟩
+    match route sw m p with
+    | .status n => (r, s!"{(statusCode n).getD 0} - w{r.nwarn}")
+    | .handler call => let (r', st, code) := handlerEffect r name call; (r', s!"{st} {code} w{r.nwarn}")
+    | .noAnswer => (r, s!"200 - w{r.nwarn}")
+    | .unknown w => (r, "unknown " ++ w)
+
+def diskLine (r : Reg) : String :=
+  s!"t2={if r.t2Disk then "yes" else "no"} b2={if r.b2Disk then "yes" else "no"}"
+
+/-! ### lifecycle -/
+
+def lcLine (kind : String) (limit : Int) : String :=
+  let shared := decide (Generated.limiterMutex = Generated.shutdownMutex)
+  match kind with
+  | "early" =>
+    -- Shutdown before Run has published the server: the schedule of `C19.f26a_witness`
+    match LC.exec ⟨shared, false, false⟩ LC.init [1, 1, 1, 1, 0, 0, 0, 0, 0, 0] with
+    | some s => if LC.stuckServing s then "shutdown=server-is-not-running run=serving" else "shutdown=ok run=returned"
+    | none => "bad-schedule"
+  | "normal" => "shutdown=ok run=returned"
+  | "load" =>
+    let p : LC.Params := ⟨shared, decide (limit > 0), true⟩
+    if (LC.reachable p).any fun s => LC.terminal p s && LC.deadlocked s then "shutdown=hang run=blocked"
+    else "shutdown=ok run=returned"
+  | _ => "bad"
+
+/-! ### main loop -/
+
+inductive Mode where
+  | none
+  | rl (limit : Nat) (s : RL.State)
+  | sw (r : Reg)
+
+def binLine (toks : List String) : String :=
+  let sig := (toks.find? (·.startsWith "sig=")).map (·.drop 4)
+  let (r0, _) := parseReg (toks.filter fun t => !t.startsWith "sig=")
+  let r0 := r0.opened
+  match sig with
+  | some _ => "exit=stopped disk=ok"
+  | none =>
+    let (r, outs) := probeNames.foldl (fun (acc : Reg × List String) n =>
+      let (r', a) := probe acc.1 n
+      (r', acc.2 ++ [n ++ "=" ++ a.replace " " ","])) (r0, [])
+    " ".intercalate outs ++ " exit=0 disk=ok " ++ (diskLine r).replace " " ","
+
+def step (md : Mode) (line : String) : Mode × String :=
+  match (line.trimAscii.toString.splitOn " ").filter (· ≠ "") with
+  | "D" :: rest => (md, defaultsLine rest)
+  | ["NEW"] => (.none, "ok")
+  | ["NEW", "RL", l] => (.rl (l.toInt!).toNat RL.init, "ok")
+  | "NEW" :: rest => (.sw (parseReg rest).1.opened, "ok")
+  | ["REQ", a, _mode, _port, t] =>
+    match md with
+    | .rl limit s =>
+      if limit = 0 then (md, "S - -")
+      else
+        let (s', ev) := RL.step limit s a.toNat! t.toInt!
+        let e := (s' a.toNat!).getD ⟨0, 0⟩
+        (.rl limit s', s!"{if ev.served then "S" else "B"} {e.first} {e.count}")
+    | _ => (md, "bad")
+  | ["P", name] =>
+    match md with
+    | .sw r => if r.closed then (md, "bad") else let (r', a) := probe r name; (.sw r', a)
+    | _ => (md, "bad")
+  | ["REOPEN", v] =>
+    match md with
+    | .sw r => (.sw { r with ref := v = "t", tagT2 := r.t2Disk, b2 := r.b2Disk }.opened, "ok")
+    | _ => (md, "bad")
+  | ["DISK"] =>
+    match md with
+    | .sw r => (.sw { r with closed := true }, diskLine r)
+    | _ => (md, "bad")
+  | ["LC", kind] => (md, lcLine kind 0)
+  | ["LC", kind, l] => (md, lcLine kind l.toInt!)
+  | "BIN" :: rest => (md, binLine rest)
+  | _ => (md, "bad")
+
+partial def loop (h : IO.FS.Stream) (out : IO.FS.Stream) (md : Mode) : IO Unit := do
+  let line ← h.getLine
+  if line.isEmpty then return ()
+  let (md', o) := step md line
+  out.putStrLn o
+  loop h out md'
+
+def main : IO Unit := do loop (← IO.getStdin) (← IO.getStdout) .none
